@@ -8,6 +8,7 @@ THEOREMS = ["Sb.C15.mergeAll_contains", "Sb.C15.mergeAll_attained", "Sb.C15.merg
 RULE = ("trajectory files (version 1/2, with/without checksum) with 0..8 segments whose x, y, z encodings are constant, linear or cubic in "
         "every combination, scales {1, 2, 10, 127}, coordinates small, seeded and at the int16 extremes, cubic shapes with interior extrema "
         "(overshoot, S-curves, zero end velocities); each loaded through a descriptor and from memory (answers must be bitwise equal); "
+        "histories of 2..8 same-length trajectories loaded one after the other from one caller buffer overwritten in place and through a descriptor; "
         "a separate stream with degree-7 encodings (recorded finding). Non-trivial: at least one segment.")
 ASSUMPTIONS = ["containment / tightness are decided exactly (Sturm sequences) against the exact Bezier polynomials, up to the float tolerance 64*2^-24*sum|coefficients| per segment"]
 
@@ -42,6 +43,25 @@ def generate(rng, tier):
                 pts[ax] = [a, b, c]
                 blk = build(scale, (0, 0, 0, 0), [(2000, pts[0], pts[1], pts[2], [])])
                 out.append((f"stats {hx(skyb(blk))} B", True))
+    # histories: several trajectories of the same encoded length, loaded one after the other from ONE caller buffer that is
+    # overwritten in place and through a descriptor after the previous one was destroyed; every box must be that of its own bytes
+    for i in range(60 if tier == "thorough" else 12):
+        nseg = rng.choice([1, 2, 3])
+        shape = [tuple(rng.choice([0, 1, 2]) for _ in range(3)) for _ in range(nseg)]
+        files = []
+        for _ in range(rng.choice([2, 3, 4, 8])):
+            scale = rng.choice([1, 2, 10])
+            start = tuple(rng.randint(-3000, 3000) for _ in range(3)) + (0,)
+            x, y, z, _ = start
+            segs = []
+            for (ex, ey, ez) in shape:
+                xs, x = axis_points(rng, x, ex, -3000, 3000)
+                ys, y = axis_points(rng, y, ey, -3000, 3000)
+                zs, z = axis_points(rng, z, ez, -3000, 3000)
+                segs.append((rng.choice([1000, 5000]), xs, ys, zs, []))
+            files.append(hx(skyb(build(scale, start, segs))))
+        if len(set(len(f) for f in files)) == 1:
+            out.append(("statsseq " + " ".join(files), True))
     # no segments at all / scale 0
     out.append((f"stats {hx(skyb(build(1, (5, 6, 7, 0), [])))} B", False))
     out.append((f"stats {hx(skyb(build(0, (5, 6, 7, 0), [(1000, [1], [2], [3], [])])))} B", False))
